@@ -102,6 +102,13 @@ def run(ctx, res):
                     res.bad("EFFECT-GUARD", key + " # allow-shape", "allowlisted effect `%s` relies on the conditional refusal in check_snippet, "
                             "which no longer has its shape: %s" % (key, whyg), "%s:%d" % (t["span"]["file"], t["span"]["line"]))
                     continue
+            if key == "eval::read_src # - # std::fs::read" and not S.read_src_regular_guard(P)[0]:
+                # the load-time import read is outside "the filesystem API" only for program *files*: an import of /dev/stdin or a
+                # FIFO is the sandboxed program reading standard input
+                res.bad("EFFECT-GUARD", key + " # non-regular files", "the import read is allow-listed only while read_src refuses everything but regular "
+                        "files; without that test `import \"/dev/stdin\" as x` lets a sandboxed program read standard input: %s" % S.read_src_regular_guard(P)[1],
+                        "%s:%d" % (t["span"]["file"], t["span"]["line"]))
+                continue
             res.ok("EFFECT-GUARD", key, "allowlisted: " + allow[key][:60])
             res.note("allowlisted unguarded effect: %s -- %s" % (key, allow[key]))
         elif PURE_ACCESSORS.search(n):
